@@ -75,6 +75,34 @@ func c13Post(r *explore.Result) string {
 type c13Case struct {
 	world string
 	c     a.Case
+	// faults: service index -> fault kind, applied to every call that service receives
+	// (a function of the service only, so the plan itself does not depend on call order)
+	faults map[int]string
+	batchM int
+}
+
+func (cc c13Case) key() string {
+	fb, _ := json.Marshal(cc.faults)
+	return fmt.Sprintf("%s|m%d|%s", cc.world, cc.batchM, fb)
+}
+
+func (cc c13Case) harness() *gwHarness {
+	cfg := a.DefaultConfig
+	cfg.BatchM = cc.batchM
+	h := newGWHarness(cc.world, cfg)
+	if len(cc.faults) > 0 {
+		plan := cc.faults
+		h.setup = func(h *gwHarness) {
+			h.fed.Fakes.FaultFor = func(call, svc, n int) *a.Fault {
+				if k, ok := plan[svc]; ok {
+					return &a.Fault{Kind: k}
+				}
+				return nil
+			}
+		}
+		h.setup(h)
+	}
+	return h
 }
 
 func c13Corpus(tier string) []c13Case {
@@ -82,13 +110,13 @@ func c13Corpus(tier string) []c13Case {
 	add := func(world string, k int, dec int) {
 		h := newGWHarness(world, a.DefaultConfig)
 		for _, c := range a.GenOps(h.fed.Merged, h.fed.W, k) {
-			out = append(out, c13Case{world, c})
+			out = append(out, c13Case{world: world, c: c})
 		}
 		if dec > 0 {
 			for _, c := range a.GenOps(h.fed.Merged, h.fed.W, dec) {
 				for _, d := range a.Decorate(h.fed.Merged, c.Q) {
 					if strings.HasPrefix(d.Dec, "argVar@") || strings.HasPrefix(d.Dec, "varTwice@") || strings.HasPrefix(d.Dec, "fragT@") || strings.HasPrefix(d.Dec, "typename@") || strings.HasPrefix(d.Dec, "named@") {
-						out = append(out, c13Case{world, d})
+						out = append(out, c13Case{world: world, c: d})
 					}
 				}
 			}
@@ -104,7 +132,7 @@ func c13Corpus(tier string) []c13Case {
 		if tier == "quick" && strings.Contains(c.Q, "$z") {
 			continue
 		}
-		out = append(out, c13Case{"W0", c})
+		out = append(out, c13Case{world: "W0", c: c})
 	}
 	// several root node() lookups / fragments in one operation, one of them selecting nothing but id
 	// (every service that knows the type could answer it)
@@ -113,15 +141,29 @@ func c13Corpus(tier string) []c13Case {
 		`{ node(id: "N1_1") { ... on N1 { name phone } ... on N2 { id } } }`,
 		`{ a: node(id: "N1_1") { ... on N1 { id } } b: node(id: "N2_1") { ... on N2 { title } } }`,
 	} {
-		out = append(out, c13Case{"W0", a.Case{Q: q}})
+		out = append(out, c13Case{world: "W0", c: a.Case{Q: q}})
+	}
+	// concurrently failing steps: the set of errors and the set of sub-requests must not depend on which one is seen first
+	for _, fc := range []c13Case{
+		{world: "W0+mutation-second-service", c: a.Case{Q: "mutation { incr(by: 1) bump(by: 1) }"}, faults: map[int]string{0: "transport", 1: "status500"}},
+		{world: "W0+mutation-second-service", c: a.Case{Q: "mutation { incr(by: 1) bump(by: 1) }"}, faults: map[int]string{1: "transport"}},
+		{world: "W0+mutation-second-service", c: a.Case{Q: "mutation { incr(by: 1) bump(by: 1) }"}, faults: map[int]string{0: "errors1"}},
+		{world: "W0", c: a.Case{Q: "{ echo n2 { title } }"}, faults: map[int]string{0: "transport", 1: "errors1"}},
+		{world: "W0", c: a.Case{Q: "{ n1s { phone } }"}, faults: map[int]string{1: "errors-per-request"}, batchM: 2},
+		{world: "W0+third-service", c: a.Case{Q: "{ n1s { phone extra } }"}, faults: map[int]string{1: "errors-per-request", 2: "transport"}, batchM: 2},
+	} {
+		if tier == "quick" && fc.world == "W0+third-service" {
+			continue // three concurrently answering services: thorough only
+		}
+		out = append(out, fc)
 	}
 	// abstract fields whose possible types get different helper sets (one fragment selects id itself)
 	for _, q := range []string{"{ us { ... on N1 { id phone } ... on N4 { label } } }", "{ us { ... on N1 { phone } ... on N4 { id label } } }",
 		"{ us { ... on N4 { label } } }", "{ us { __typename ... on N1 { id } ... on N4 { label } } }"} {
-		out = append(out, c13Case{"W0+union-list", a.Case{Q: q}})
+		out = append(out, c13Case{world: "W0+union-list", c: a.Case{Q: q}})
 	}
 	for _, q := range []string{"{ named { ... on N1 { id name } ... on N3 { name size } } }", "{ named { name ... on N3 { id } } }"} {
-		out = append(out, c13Case{"W0+interface-entities", a.Case{Q: q}})
+		out = append(out, c13Case{world: "W0+interface-entities", c: a.Case{Q: q}})
 	}
 	if tier == "quick" {
 		add("W0", 2, 2)
@@ -144,7 +186,7 @@ func c13Corpus(tier string) []c13Case {
 func init() {
 	Specs["C13"] = &Spec{
 		ID: "C13",
-		Rule: "scenario = one operation (all operations with <=2 fields (thorough 3) on W0 plus variable/fragment decorations, all <=2-field operations on 5 (thorough 13) worlds with several services per level, abstract types, shared types); " +
+		Rule: "scenario = one operation, fault-free or with a fault plan per service (transport error, 500, GraphQL errors, one error per sub-request) and a small downstream batch size (all operations with <=2 fields (thorough 3) on W0 plus variable/fragment decorations, all <=2-field operations on 5 (thorough 13) worlds with several services per level, abstract types, shared types); " +
 			"explored: every execution of the real Gateway.Handler with at most 1 (thorough 2) deviation, a deviation being a preemption or a non-default iteration order at one of the 43 rewritten `range`-over-map sites " +
 			"(any key first, or reversed); outcome = (data, set of errors, per-service multiset of (query, variables)); oracle: exactly one outcome per operation, no deadlock/fatal; non-trivial = >1 execution",
 		Assumptions: []string{"map iteration inside dependencies (gqlparser, lo) is not enumerated", "deviation-bounded: combinations of more than the bound of order changes / preemptions are not covered"},
@@ -163,14 +205,19 @@ func init() {
 			var out []Scenario
 			hs := map[string]*gwHarness{}
 			for _, cc := range c13Corpus(tier) {
-				h := hs[cc.world]
+				h := hs[cc.key()]
 				if h == nil {
-					h = newGWHarness(cc.world, a.DefaultConfig)
-					hs[cc.world] = h
+					h = cc.harness()
+					hs[cc.key()] = h
 				}
 				vb, _ := json.Marshal(cc.c.Vars)
+				name := fmt.Sprintf("%s :: %s %s", cc.world, cc.c.Q, vb)
+				if len(cc.faults) > 0 {
+					fb, _ := json.Marshal(cc.faults)
+					name += fmt.Sprintf(" faults(service->kind)=%s m=%d", fb, cc.batchM)
+				}
 				out = append(out, Scenario{
-					Name:  fmt.Sprintf("%s :: %s %s", cc.world, cc.c.Q, vb),
+					Name:  name,
 					Atoms: h.fed.CaseAtoms(cc.c),
 					Opt:   explore.Options{Bound: bound, MapBranch: true, Horizon: 200000, Cache: true},
 					H:     c13Harness(h, cc.c),
